@@ -92,17 +92,20 @@ package evaluator
 //@ props C06
 // evalArgs merges every `**obj` into a fresh, private obj: the AddPairs call must target fresh memory.
 //@ func evaluator.evalArgs(argNodes, env) args, kwargs, err
+//@   requires env != nil
 //@   assigns EC
 //@   loop 1 invariant unpackedKwargs != nil && fresh(unpackedKwargs) && unpackedKwargs.Pairs != nil && fresh(unpackedKwargs.Pairs) && *unpackedKwargs.Pairs != nil && fresh(*unpackedKwargs.Pairs)
 //@   loop 1 invariant fresh(args)
 //
 //@ func evaluator.evalKwargs(kwargs, env) res, err
+//@   requires env != nil
 //@   ensures  err == nil ==> res != nil && fresh(res) && res.Pairs != nil && fresh(res.Pairs) && *res.Pairs != nil && fresh(*res.Pairs)
 //@   assigns  EC
 //@   loop 1 invariant fresh(pairMap) && pairMap != nil
 //
 // extractEmbeddedElems appends to the caller's (private) list of non-hashable pairs
 //@ func evaluator.extractEmbeddedElems(node, env, nonHashablePairs) pairs, err
+//@   requires node != nil && env != nil
 //@   assigns EC, nonHashablePairs
 //@   loop 1 invariant fresh(pairs) && (fresh(nonHashablePairs) || arrOf(nonHashablePairs) == arrOf(nonHashablePairs0))
 //@   loop 2 invariant fresh(pairs) && (fresh(nonHashablePairs) || arrOf(nonHashablePairs) == arrOf(nonHashablePairs0))
@@ -145,6 +148,7 @@ package evaluator
 //@ invariant ast.ArrLiteral: self.Src != nil
 //@ invariant ast.IntLiteral: self.Src != nil
 //@ invariant ast.FloatLiteral: self.Src != nil
+//@ invariant ast.PinnedIdent: self.Ident.Src != nil
 // mandatory children of syntax-tree nodes (the grammar cannot build these nodes without them)
 //@ invariant ast.ExprStmt: self.Expr != nil
 //@ invariant ast.JumpStmt: self.Val != nil
